@@ -15,7 +15,9 @@ props.prop(
     decides='that every registered (type, version) has both a saver and a loader, versions are 1..n, never '
             'overwritten and the newest is used on save, the stamp written and the reader\'s default agree, each '
             'version\'s loader reads only keys that version\'s saver writes (and drops none), and the rename table is '
-            'acyclic, resolvable inside this package and captures no class this package still defines and writes',
+            'acyclic, resolvable inside this package and captures no class this package still defines and writes; that a field set '
+            'by several loader versions comes out in the layout of the newest; the quantifier of the external-link '
+            'classification of old DataCollection records',
     not_decided='semantic drift of a key whose name is unchanged; objects generated at run time',
     assumptions=['registrations are made by the decorators at import time, in source order'])
 
